@@ -239,3 +239,7 @@ OBLIGATIONS = [
          bounds='one of the three transfers cancelled before a symbolic task start (quick: the first three starts)',
          encodes=['TransferCoordinator.cancel', 'TransferManager._shutdown'], assumptions=['S1', 'S2', 'nested schedules']),
 ]
+
+# C18.tmp: two downloads never share a temporary file (otherwise one transfer's cleanup removes the other's data)
+from harness.tempname import OB_TEMPNAME  # noqa: E402
+SMT_OBLIGATIONS = [dict(OB_TEMPNAME, id='C18.tmp')]
